@@ -108,6 +108,7 @@ def run(chk):
     work = chk.work()
     ncol = 12 if chk.tier == 'quick' else 80
     cases2, bad2 = [], 0
+    ucm_state = {'padded': 0, 'unpadded': 0, 'unpadded-but-equal': 0, 'other': 0}
     depth_sets = [[F('0.5'), F(2), F(4)], [F('0.5')], [F('0.2'), F('1.0')], [F('0.1'), F('0.33'), F('0.7'), F('1.5')],
                   [F(2), F('0.5'), F(4)], [F('0.05'), F(3)]]
     for i in range(ncol):
@@ -133,6 +134,21 @@ def run(chk):
                             ' idx=' + ('unset' if idx is None else str(idx)))
         except IndexError:
             outs = ['err index', 'err index']
+        # the column the canyon model really simulates
+        if outs[0].startswith('ok'):
+            ucm_road = m.UCM.road
+            nlay = -(-droad // F(1, 20))
+            if ucm_road is m.road:
+                ucm_state['padded'] += 1
+            elif list(ucm_road.layer_thickness_lst) == [F(1, 20)] * int(nlay):
+                ucm_state['unpadded' if sum(ucm_road.layer_thickness_lst) != sum(m.road.layer_thickness_lst)
+                          else 'unpadded-but-equal'] += 1
+            else:
+                ucm_state['other'] += 1
+                chk.violation('impl-violation', 'urban road column simulated by the canyon model',
+                              case={'droad': str(droad), 'depths': [str(x) for x in depths]},
+                              observed={'UCM.road': [str(x) for x in ucm_road.layer_thickness_lst]},
+                              expected='the padded column of model.road (or, known finding, the unpadded pavement)')
         line = 'column droad=%s kroad=%s croad=%s depths=%s' % (
             frac_str(droad), frac_str(kroad), frac_str(croad), frac_list(depths))
         cases2.append((line, outs[0]))
@@ -161,6 +177,11 @@ def run(chk):
                         'and soil index vs Lean groundColumn, exact',
                    classify=lambda l, a: 'unset' if 'idx=unset' in a else 'err' if a.startswith('err') else 'padded')
 
+    chk.measurements['column_simulated_by_canyon_model'] = ucm_state
+    if ucm_state['unpadded'] and not ucm_state['other'] and not chk.broken() and not chk.violations:
+        for kf in chk.known_findings():
+            if kf['id'] == 'C20-urban-road-not-padded':
+                chk.report_known(kf)
     # --- T5 on a real (float) run: deep temperature used = Tsoil[index][month-1] of the header
     core.repo_python_path()
     import uwg as realuwg
